@@ -782,7 +782,8 @@ example : obsLine "0,0,0,2,0,L|10:0,1,0.5" = (true, [(1, [0, 0, 0, 0, 0x41200000
 example : obsLine "0,0,0,2,0,L|10:0,1,1e-17" = (true, [(1, [0, 0, 0, 0, 0x41200000, 0], [])]) := by decide +kernel
 
 /-- the hypotheses of `hold_duration_nonneg_float` on closed times, and its conclusion as the kernel computes it. -/
-example : InLimit (1000 : Float) ∧ InLimit (500 : Float) ∧ (Scalar.max (1000 : Float) 500 - 1000).toBits = 0 := by decide +kernel
+example : InLimit (1000 : Float) ∧ InLimit (500 : Float) ∧ (Scalar.max (1000 : Float) 500 - 1000).toBits = 0 := by
+  unfold InLimit; decide +kernel
 
 /-- a coordinate outside ±131072 rejects the line (nothing is clamped). -/
 example : obsLine "131072.5,0,0,1,0" = (false, []) := by decide +kernel
